@@ -260,6 +260,9 @@ DIRECTED = [
     "handlers = [lambda *args, **kwargs: (args, kwargs), lambda first, second, /: first + second, lambda value, *rest, flag=None: (value, rest, flag)]\n",
     "def f():\n    from django.db.models import Q\n    from re import I, M\n    alpha=beta=gamma=delta=epsilon=zeta=eta=theta=iota=kappa=lam=mu=nu=xi=omicron=pi=rho=sigma=1\n    return [alpha,beta,gamma,delta,epsilon,zeta,eta,theta,iota,kappa,lam,mu,nu,xi,omicron,pi,rho,sigma,Q,I,M,alpha,beta,gamma,delta,epsilon,zeta,eta,theta,iota,kappa,lam,mu,nu,xi,omicron,pi,rho,sigma]\n",
     "x = 1\ndef f(x):\n    class C:\n        x = x\n    return C.x\nprint(f(10))\n",
+    'A = 1\nbbb = 2\nB = 5\ndef f():\n    global A, bbb, B\n    bbb = bbb+bbb+bbb+bbb\n    A = 3\n    B = A + bbb\nf()\nprint(A, bbb, B)\n',
+    'def o():\n    A = 1\n    bbb = 2\n    B = 0\n    def f():\n        nonlocal A, bbb, B\n        bbb = bbb+bbb+bbb+bbb\n        A = 3\n        B = A\n    f()\n    return A, bbb, B\nprint(o())\n',
+    'C = 1\nlong_counter_name = 2\ndef g():\n    global long_counter_name, C\n    long_counter_name += long_counter_name + long_counter_name\n    C += 1\n    return long_counter_name, C\nprint(g())\n',
     "def make(scale):\n    limit = scale * 10\n    class Config:\n        A = 'alpha'\n        B = 'beta'\n        C = 'gamma'\n        threshold = limit\n        def D(self):\n            return limit\n    return Config.threshold, Config.A, Config.B, Config().D()\nprint(make(3))\n",
     "def build(prefix, suffix):\n    joined = prefix + suffix\n    class Names:\n        A = 1\n        B = 2\n        class C:\n            inner = joined\n        first = joined\n        second = [joined for _ in range(1)]\n    return Names.first, Names.C.inner, Names.second, Names.A, Names.B\nprint(build('p', 's'))\n",
     "def tagged():\n    class Tags:\n        A = 'shared text'\n        B = 'shared text'\n        C = 'shared text', 'shared text', 'shared text'\n        D = 'other text', 'other text', 'other text', 'other text'\n    return Tags.A, Tags.B, Tags.C, Tags.D\nprint(tagged())\n",
